@@ -52,6 +52,10 @@ def visiblePaths (b : Nat) : List Path :=
 def noTruncB (b : Nat) (d : Dir) : Bool :=
   (visiblePaths b).all fun p => !(d p == some Content.trunc) && !(d p == some Content.other)
 
+/-- some shard of the repository is visible -/
+def presentB (b : Nat) (d : Dir) : Bool :=
+  (List.range b).any (fun n => (sview d n).isSome) || cview d
+
 def descr (s : Scn) : String :=
   (if s.compound then (if s.shardMerging then "compound" else "compound-nomerge") else if s.delta then "delta" else "full") ++
   ":" ++ toString s.nOld ++ "to" ++ toString s.nNew ++ (if s.oldMeta.any id || s.compMeta then "+meta" else "")
@@ -68,6 +72,8 @@ def checkP (s : Scn) (isEnd resOk faulted : Bool) (d : Dir) : Option String :=
     let isOld := sameViewB (bound s) d (oldDir s)
     let isNew := sameViewB (bound s) d (newDir s)
     if isEnd && resOk && !isNew then some ("false-success:" ++ descr s)
+    else if !(isOld || isNew) && !presentB (bound s) d && presentB (bound s) (oldDir s) && presentB (bound s) (newDir s) then
+      some ("missing:" ++ descr s)
     else if !(isOld || isNew) then
       some ((if isEnd && faulted then "fault-mix:" else "crash-mix:") ++
             (if atomic s then "atomic:" else "nonatomic:") ++ descr s)
